@@ -788,7 +788,7 @@ def cmdC10 (st : State) : List String := Id.run do
   out ++ [s!"ok violations={out.length}", "done"]
 
 /-- C20: octabox records of the output font's Glat against the glyf outlines of the INPUT font. -/
-def cmdC20 (st : State) : Except String (List String) := do
+def cmdC20 (st : State) (complex : List Nat := []) : Except String (List String) := do
   let (ib, fi) ← match st.inFont, st.inSfnt with
     | some a, some b => pure (a, b)
     | _, _ => throw "no input font loaded (infont)"
@@ -816,7 +816,7 @@ def cmdC20 (st : State) : Except String (List String) := do
     nSub := nSub + ob.sub.size
     let comps := if g < numGlyphs then Octa.componentIds glyf loca longLoca g else []
     let repeats := comps.length != comps.eraseDups.length
-    for m in Octa.checkGlyph g pts ob do
+    for m in Octa.checkGlyph g pts ob (complex.contains g) do
       if m.startsWith "DEGENERATE" then degenerate := degenerate + 1
       else out := out ++ ["FAIL " ++ m ++ (if repeats then " [composite repeats a component]" else "")]
   if out.isEmpty then return [s!"ok glyphs={glat.glyphs.size} points={nPts} subBoxes={nSub} degenerate={degenerate}", "done"]
@@ -937,6 +937,11 @@ def step (st : State) (toks : List String) : IO (State × List String) := do
   | ["c01"] =>
     match cmdC01 st with
     | .ok ls => return (st, ls)
+    | .error e => return (st, [s!"error {e}", "done"])
+  | ["c20", lst] =>
+    -- the glyphs for which the program sets collision.complexFit (comma-separated ids)
+    match cmdC20 st ((lst.splitOn ",").filterMap String.toNat?) with
+    | .ok l => return (st, l)
     | .error e => return (st, [s!"error {e}", "done"])
   | ["c20"] =>
     match cmdC20 st with
